@@ -100,6 +100,26 @@ def lazy_paths(f, ch):
             out += canon(c[:])
             count += len(c)
         return out
+    def file_chunks_collected():
+        # all chunks fetched first (list(...)), looked at afterwards: a chunk's offset and data must not depend on
+        # when it is inspected
+        out, count = [], 0
+        for dc in list(f.data_chunks()):
+            c = dc[ch.group_name][ch.name]
+            if c.offset != count:
+                raise AssertionError("collected file chunk offset %r != running count %r" % (c.offset, count))
+            out += canon(c[:])
+            count += len(c)
+        return out
+
+    def chan_chunks_collected():
+        out, count = [], 0
+        for c in list(ch.data_chunks()):
+            if c.offset != count:
+                raise AssertionError("collected chunk offset %r != running count %r" % (c.offset, count))
+            out += canon(c[:])
+            count += len(c)
+        return out
     return {
         "slice": outcome(lambda: canon(ch[:])),
         "ellipsis": outcome(lambda: canon(ch[...])),
@@ -109,11 +129,14 @@ def lazy_paths(f, ch):
         "index_rev": outcome(lambda: [canon_scalar(ch[i]) for i in range(n - 1, -1, -1)][::-1]),
         "chan_chunks": outcome(chan_chunks),
         "file_chunks": outcome(file_chunks),
+        "file_chunks_collected": outcome(file_chunks_collected),
+        "chan_chunks_collected": outcome(chan_chunks_collected),
         "raw": outcome(lambda: canon(ch.read_data(scaled=False))),
     }
 
 
-SCALED_NAMES = ("slice", "ellipsis", "read_data", "data", "iter", "index", "index_rev", "chan_chunks", "file_chunks")
+SCALED_NAMES = ("slice", "ellipsis", "read_data", "data", "iter", "index", "index_rev", "chan_chunks", "file_chunks",
+                "file_chunks_collected", "chan_chunks_collected")
 
 
 def observe_config(src, mode, raw_ts, memmap):
